@@ -224,3 +224,116 @@ pub fn transcripts(ctx: &Ctx, rep: &mut Report) {
     rep.require("transcripts", 3);
     rep.require("signatures_in_transcripts", 3000);
 }
+
+// ---------------------------------------------------------------------------
+// exact replay of the fast-Fourier sampler
+
+use crate::gen::{ScriptedRng, Strategy};
+use crate::refs::ffs;
+use crate::signer::{progress_budget, sign_scripted};
+use falcon_rust::verif_hooks::Event;
+
+/// For every signing attempt the hook log gives, in call order, the centre, width and output
+/// of each integer-sampler call. An independent Algorithm 11 (own FFT, split/merge, LDL tree
+/// built from the basis) is replayed on the recorded OUTPUTS and must predict every recorded
+/// centre and width: a deterministic oracle for the tree (L entries and leaves) and the
+/// recursion (sub-tree order, the t0' adjustment, which leaf feeds which call).
+fn trace_v<V: Fv>(ctx: &Ctx, nkeys: usize, nsig: usize, rep: &mut Report) {
+    let (keys, _bad) = crate::pool::keys::<V>(ctx.seed, "c10-trace", nkeys);
+    let n = V::N;
+    let r = par_for(keys.len() * nsig, ncpu(), |job, rep| {
+        let k = &keys[job % keys.len()];
+        let b0 = V::basis(&k.sk);
+        let tf = |p: &Vec<i16>, neg: bool| p.iter().map(|&x| if neg { -(x as f64) } else { x as f64 }).collect::<Vec<f64>>();
+        let (g, f, cg, cf) = (tf(&b0[0], false), tf(&b0[1], true), tf(&b0[2], false), tf(&b0[3], true));
+        let tree = ffs::tree(&f, &g, &cf, &cg, V::SIGMA);
+        let msg = format!("trace-{}", job).into_bytes();
+        // a few executions with forced norm rejections as well (several attempts per call)
+        let strat = if job % 5 == 4 { Strategy::ForceAccept { rate_pm: 200, groups: 2 * n as u64 } } else { Strategy::Honest };
+        let rng = ScriptedRng::new(ctx.seed, &format!("c10-trace-{}-{}", V::NAME, job), strat, progress_budget(n));
+        let out = sign_scripted::<V>(&msg, &k.sk, rng, true, 0);
+        let sig = match out.sig {
+            Ok(s) => s,
+            Err(_) => return, // C01's business
+        };
+        let sb = V::sig_to_bytes(&sig);
+        let calls: Vec<(f64, f64, i64)> = out.events.iter().filter_map(|e| if let Event::SamplerCall { mu, sigma, z, .. } = e { Some((*mu, *sigma, *z as i64)) } else { None }).collect();
+        if calls.is_empty() || calls.len() % (2 * n) != 0 {
+            rep.inconclusive(format!("{}: {} sampler events for one signature (expected a multiple of {})", V::NAME, calls.len(), 2 * n));
+            return;
+        }
+        // target t = (c F / q, -c f / q) in the FFT domain (sign convention of the signer; the
+        // opposite convention is tried as well and accepted, it is not a property)
+        let mut rm = sb[1..41].to_vec();
+        rm.extend_from_slice(&msg);
+        let c: Vec<f64> = spec::hash_to_point(&rm, n).iter().map(|&x| x as f64).collect();
+        let (ch, fh, cfh) = (ffs::fft(&c), ffs::fft(&f), ffs::fft(&cf));
+        let q = spec::Q as f64;
+        let t0: Vec<ffs::C> = (0..n).map(|i| ch[i].mul(cfh[i]).scale(1.0 / q)).collect();
+        let t1: Vec<ffs::C> = (0..n).map(|i| ch[i].mul(fh[i]).scale(-1.0 / q)).collect();
+        for (ai, att) in calls.chunks(2 * n).enumerate() {
+            rep.evaluations += 1;
+            let zs: Vec<i64> = att.iter().map(|x| x.2).collect();
+            let mut best: Option<(f64, f64, usize)> = None;
+            for flip in [1.0f64, -1.0] {
+                let a0: Vec<ffs::C> = t0.iter().map(|x| x.scale(flip)).collect();
+                let a1: Vec<ffs::C> = t1.iter().map(|x| x.scale(flip)).collect();
+                let mut rp = ffs::Replay { zs: &zs, pos: 0, expected: Vec::with_capacity(2 * n) };
+                if ffs::ffsampling(&a0, &a1, &tree, &mut rp).is_none() || rp.expected.len() != 2 * n {
+                    continue;
+                }
+                let mut worst_mu = 0.0f64;
+                let mut worst_sg = 0.0f64;
+                let mut at = 0;
+                for (i, ((emu, esg), (rmu, rsg, _))) in rp.expected.iter().zip(att.iter()).enumerate() {
+                    let dm = (emu - rmu).abs() / emu.abs().max(1.0);
+                    if dm > worst_mu {
+                        worst_mu = dm;
+                        at = i;
+                    }
+                    worst_sg = worst_sg.max(((esg - rsg) / esg).abs());
+                }
+                if best.map(|b| worst_mu.max(worst_sg) < b.0.max(b.1)).unwrap_or(true) {
+                    best = Some((worst_mu, worst_sg, at));
+                }
+            }
+            let (wm, ws, at) = match best {
+                Some(b) => b,
+                None => {
+                    rep.inconclusive("reference replay consumed a different number of sampler outputs".into());
+                    return;
+                }
+            };
+            rep.stat_max("trace_worst_centre_rel_err", wm);
+            rep.stat_max("trace_worst_width_rel_err", ws);
+            let replay = json!({"variant": V::NAME, "key_seed": hex(&k.seed), "msg": hex(&msg), "attempt": ai, "note": "re-run the leg with the recorded seed"});
+            if !(wm < 1e-6) {
+                rep.violation("ffsampling:centre-differs-from-reference", format!("{}: sampler call {} of attempt {} was given a centre that differs from Algorithm 11 replayed on the same outputs (relative deviation {:.3e}; recorded mu = {}, sigma' = {})", V::NAME, at, ai, wm, att[at].0, att[at].1), replay.clone());
+            }
+            if !(ws < 1e-9) {
+                rep.violation("ffsampling:width-differs-from-reference", format!("{}: a sampler call of attempt {} was given a width that differs from the reference tree (relative deviation {:.3e})", V::NAME, ai, ws), replay);
+            }
+            rep.count("attempts_replayed", 1);
+            rep.count("sampler_calls_replayed", 2 * n as u64);
+            if ai > 0 {
+                rep.count("attempts_after_a_norm_rejection", 1);
+            }
+            rep.nontrivial(format!("{}|{}|{}", V::NAME, job, ai).as_bytes());
+        }
+        if job == 0 {
+            rep.sample(json!({"variant": V::NAME, "key_seed": hex(&k.seed), "sampler_calls": calls.len(), "first_calls": calls.iter().take(3).map(|c| json!({"mu": c.0, "sigma": c.1, "z": c.2})).collect::<Vec<_>>()}));
+        }
+    });
+    rep.merge(r);
+}
+
+pub fn trace(ctx: &Ctx, rep: &mut Report) {
+    if !crate::pool::keygen_responds::<F512>() {
+        rep.inconclusive("key generation did not return within 180 s (canary)".into());
+        return;
+    }
+    trace_v::<F512>(ctx, ctx.sz(3, 24), ctx.sz(20, 200), rep);
+    trace_v::<F1024>(ctx, ctx.sz(2, 8), ctx.sz(10, 100), rep);
+    rep.require("attempts_replayed", 50);
+    rep.require("attempts_after_a_norm_rejection", 1);
+}
